@@ -44,9 +44,17 @@ def gen_case(rng, thorough, idx):
         if rng.random() < 0.3:
             Y = X[:]
             fam += '+self'
-    r = float(np.float32(rng.choice(RATIOS) if rng.random() < 0.7 else rng.uniform(0.01, 0.99)))
+    r_py = rng.choice(RATIOS + [0.7, 0.9, 0.35, 0.15, 0.55, 0.3]) if rng.random() < 0.7 else rng.choice([rng.uniform(0.01, 0.99), round(rng.uniform(0.01, 0.99), 2)])
+    if rng.random() < 0.25 and n >= 10:
+        # r*n numerically an integer while float32(r) < r (0.7 of 10 rows): the estimator takes the ratio as float32
+        n = (n // 10) * 10
+        Y, X = Y[:n], X[:n]
+        r_py = rng.choice([0.7, 0.9, 0.35, 0.15, 0.55])
+    r = float(np.float32(r_py))
     cc = rng.random() < 0.5
-    return {'id': idx, 'family': fam, 'Y': Y, 'X': X, 'r': r, 'cc': cc, 'sample': True}
+    # `r`: the float32 value (what the estimator receives, the model's exact ratio); `r_py`: the Python float handed to numba_mi /
+    # conduct_feature_ranking, as the CLI does with --mi_stratified_sampling_ratio
+    return {'id': idx, 'family': fam, 'Y': Y, 'X': X, 'r': r, 'r_py': r_py, 'cc': cc, 'sample': True}
 
 
 def gen_large(rng, idx):
